@@ -280,7 +280,9 @@ class Gen(object):
             r = self.rnd.random()
             if r < 0.3:
                 out.append(235000)
-                e = self.elems(self.rnd.randint(1, 2))
+                # again at least as many ordinary elements as the next bitmap can have bits (2): its window must not reach
+                # back to the replication factors in front of the cancellation
+                e = self.elems(self.rnd.randint(2, 3), ('num', 'num', 'code'))
                 out += e
                 self.plain = len(e)
                 out += self.bitmap_section(False, False)
